@@ -234,7 +234,8 @@ def run(ctx):
             if n == 5 and derive(ctx.seed, "g5", idx) % 4:
                 idx += 1
                 continue
-            graphs.append(dict(n=n, edges=[list(e) for e in edges]))
+            vs = c04.orientation_variants(edges)
+            graphs.append(dict(n=n, edges=vs[derive(ctx.seed, "orient", idx) % len(vs)]))
             idx += 1
     cells = 6 if quick else 8
     for h in range(1, cells + 1):
